@@ -86,6 +86,11 @@ pub fn specs() -> Vec<PropSpec> {
             // free-running threads (contention inside get / guard drop); each case spawns 2..5 threads
             Stage { engine: || Box::new(bsv_pool::PoolStress), quick_cases: 600, thorough_cases: 8_000 }
         );
+        // C05 names the pool return: the baton pool engine's ledger oracle (nothing is released while the pool is alive,
+        // also after a getter unwound with the pool's mutex held) counts for C05 as `C05/early-release`
+        if let Some(p) = v.iter_mut().find(|p| p.id == "C05") {
+            p.stages.push(Stage { engine: || Box::new(bsv_pool::PoolEngine), quick_cases: 6_000, thorough_cases: 80_000 });
+        }
         // C12: the real-arena half rides on engine A
         if let Some(p) = v.iter_mut().find(|p| p.id == "C12") {
             p.stages.push(arena!("C12", 300_000, 4_000_000));
